@@ -1,3 +1,711 @@
+import LachesisVerif.Model.CachedProducer
+/-!
+# C27 — Caching producer reference-counts opens
+
+"Opening the same name several times through either caching producer returns the same store; the
+underlying database is closed exactly once, when the last of those opens is closed; closing more
+often than opening is reported as an error; and the underlying drop runs at most once per open."
+
+Model: `Model.CachedProducer` — both constructors (`Wrap`, `WrapAll`; every theorem quantifies over
+the `Kind`), the shared `openDB` with its three maps, the counter tests regenerated from the source.
+A store is identified by its generation (number of the underlying `OpenDB` that created it).
+All trace theorems are over **all** operation sequences from a fresh producer, interleaving any
+number of names; `exactly_once` needs the reading of DESIGN §2.6 ("per generation and per handle
+obtained in that generation"): a handle of an *earlier* generation is not closed while a newer
+generation of the same name is open (`WF`). The stream covers stale handles too (the model follows
+the code there).
+-/
 namespace C27
-theorem stub : True := trivial
+open Model.CachedProducer
+
+abbrev Trace := List (Op × Out)
+
+def events (tr : Trace) : List Ev := tr.flatMap (fun x => x.2.evs)
+
+/-- OpenDB calls on `n` (successful or not) -/
+def opens (n : Nat) (tr : Trace) : Nat := tr.countP (fun x => match x.1 with | .open m _ => m == n | _ => false)
+/-- OpenDB calls on `n` that returned a store -/
+def opensOk (n : Nat) (tr : Trace) : Nat :=
+  tr.countP (fun x => match x.1 with | .open m _ => m == n && !x.2.err | _ => false)
+/-- Close calls on handles of `n` that returned no error -/
+def closesOk (n : Nat) (tr : Trace) : Nat :=
+  tr.countP (fun x => match x.1 with | .close m _ => m == n && !x.2.err | _ => false)
+/-- underlying Drop calls on stores of `n` -/
+def realDrops (n : Nat) (tr : Trace) : Nat :=
+  (events tr).countP (fun e => match e with | .realDrop m _ => m == n | _ => false)
+
+theorem setName_same (st : State) (n : Nat) (s : NameSt) : (setName st n s).names n = s := by simp [setName]
+theorem setName_other (st : State) (n m : Nat) (s : NameSt) (h : m ≠ n) : (setName st n s).names m = st.names m := by
+  simp [setName, h]
+
+/-! ## what one call does (any state, either constructor) -/
+
+/-- **Same store**: while `n` is open, `OpenDB(n)` returns the cached store (same generation),
+makes no underlying call and counts one more reference. -/
+theorem open_same_store (st : State) (n g : Nat) (fail : Bool) (h : (st.names n).opened = some g) :
+    (openDB st n fail).2.gen = some g ∧ (openDB st n fail).2.evs = [] ∧ (openDB st n fail).2.err = false ∧
+    ((openDB st n fail).1.names n).opened = some g ∧ ((openDB st n fail).1.names n).ref = (st.names n).ref + 1 ∧
+    (openDB st n fail).1.nextGen = st.nextGen := by
+  have hc : Gen.Cachedproducer.reuseOpened ({ st.names n with notDropped := true } : NameSt).opened.isSome = true := by
+    show (st.names n).opened.isSome = true
+    rw [h]; rfl
+  unfold openDB
+  rw [if_pos hc]
+  refine ⟨h, rfl, rfl, ?_, ?_, rfl⟩
+  · show ((setName st n _).names n).opened = _; rw [setName_same]; exact h
+  · show ((setName st n _).names n).ref = _; rw [setName_same]
+
+/-- a name that is not open is opened underneath, as a new generation -/
+theorem open_fresh (st : State) (n : Nat) (h : (st.names n).opened = none) :
+    (openDB st n false).2.gen = some st.nextGen ∧ (openDB st n false).2.evs = [.realOpen n st.nextGen] ∧
+    (openDB st n false).2.err = false ∧
+    ((openDB st n false).1.names n).opened = some st.nextGen ∧
+    ((openDB st n false).1.names n).ref = (st.names n).ref + 1 ∧ (openDB st n false).1.nextGen = st.nextGen + 1 := by
+  have hc : ¬ Gen.Cachedproducer.reuseOpened ({ st.names n with notDropped := true } : NameSt).opened.isSome = true := by
+    show ¬ (st.names n).opened.isSome = true
+    rw [h]; simp
+  unfold openDB
+  rw [if_neg hc, if_neg (by simp)]
+  refine ⟨rfl, rfl, rfl, ?_, ?_, rfl⟩
+  · show ((setName st n _).names n).opened = _; rw [setName_same]
+  · show ((setName st n _).names n).ref = _; rw [setName_same]
+
+/-- a failing underlying OpenDB is passed on; nothing is cached -/
+theorem open_fail (st : State) (n : Nat) (h : (st.names n).opened = none) :
+    (openDB st n true).2.err = true ∧ (openDB st n true).2.gen = none ∧ (openDB st n true).2.evs = [.realOpenFail n] ∧
+    ((openDB st n true).1.names n).opened = none ∧ ((openDB st n true).1.names n).ref = (st.names n).ref ∧
+    (openDB st n true).1.nextGen = st.nextGen := by
+  have hc : ¬ Gen.Cachedproducer.reuseOpened ({ st.names n with notDropped := true } : NameSt).opened.isSome = true := by
+    show ¬ (st.names n).opened.isSome = true
+    rw [h]; simp
+  unfold openDB
+  rw [if_neg hc, if_pos rfl]
+  refine ⟨rfl, rfl, rfl, ?_, ?_, rfl⟩
+  · show ((setName st n _).names n).opened = _; rw [setName_same]; exact h
+  · show ((setName st n _).names n).ref = _; rw [setName_same]
+
+theorem open_other (st : State) (n m : Nat) (fail : Bool) (hm : m ≠ n) : (openDB st n fail).1.names m = st.names m := by
+  unfold openDB
+  by_cases hc : Gen.Cachedproducer.reuseOpened ({ st.names n with notDropped := true } : NameSt).opened.isSome = true
+  · rw [if_pos hc]; exact setName_other _ _ _ _ hm
+  · rw [if_neg hc]
+    cases fail
+    · rw [if_neg (by simp)]
+      show (setName st n _).names m = _
+      exact setName_other _ _ _ _ hm
+    · rw [if_pos rfl]; exact setName_other _ _ _ _ hm
+
+/-- **Closing more often than opening is an error**: with no reference left, Close returns the
+error, calls nothing underneath and changes nothing. -/
+theorem close_too_often (st : State) (n g : Nat) (h : (st.names n).ref = 0) :
+    close st n g = (st, { err := true }) := by
+  unfold close Gen.Cachedproducer.closeTooOften
+  rw [if_pos (by simp [h])]
+
+/-- **The last close closes the underlying store** (the one the handle belongs to) and forgets the
+cached store. -/
+theorem close_last (st : State) (n g : Nat) (h : (st.names n).ref = 1) :
+    (close st n g).2.err = false ∧ (close st n g).2.evs = [.realClose n g] ∧
+    ((close st n g).1.names n).opened = none ∧ ((close st n g).1.names n).ref = 0 ∧
+    ((close st n g).1.names n).notDropped = (st.names n).notDropped ∧ (close st n g).1.nextGen = st.nextGen := by
+  unfold close Gen.Cachedproducer.closeTooOften Gen.Cachedproducer.closeLast Gen.Cachedproducer.doRealClose
+  rw [if_neg (by simp [h]), if_pos (by simp [h])]
+  refine ⟨rfl, rfl, ?_, ?_, ?_, rfl⟩
+  · show ((setName st n _).names n).opened = _; rw [setName_same]
+  · show ((setName st n _).names n).ref = _; rw [setName_same]
+  · show ((setName st n _).names n).notDropped = _; rw [setName_same]
+
+/-- an earlier close only counts down -/
+theorem close_not_last (st : State) (n g : Nat) (h : (st.names n).ref ≥ 2) :
+    (close st n g).2.err = false ∧ (close st n g).2.evs = [] ∧
+    ((close st n g).1.names n).opened = (st.names n).opened ∧ ((close st n g).1.names n).ref = (st.names n).ref - 1 ∧
+    ((close st n g).1.names n).notDropped = (st.names n).notDropped ∧ (close st n g).1.nextGen = st.nextGen := by
+  unfold close Gen.Cachedproducer.closeTooOften Gen.Cachedproducer.closeLast Gen.Cachedproducer.doRealClose
+  rw [if_neg (by simp; omega), if_neg (by simp; omega)]
+  refine ⟨rfl, rfl, ?_, ?_, ?_, rfl⟩
+  · show ((setName st n _).names n).opened = _; rw [setName_same]
+  · show ((setName st n _).names n).ref = _; rw [setName_same]
+  · show ((setName st n _).names n).notDropped = _; rw [setName_same]
+
+theorem close_other (st : State) (n g m : Nat) (hm : m ≠ n) : (close st n g).1.names m = st.names m := by
+  unfold close
+  by_cases h1 : Gen.Cachedproducer.closeTooOften (st.names n).ref = true
+  · rw [if_pos h1]
+  · rw [if_neg h1]
+    by_cases h2 : Gen.Cachedproducer.closeLast (st.names n).ref = true
+    · rw [if_pos h2]; exact setName_other _ _ _ _ hm
+    · rw [if_neg h2]; exact setName_other _ _ _ _ hm
+
+/-- Drop calls the underlying Drop only if the name was opened since the last Drop -/
+theorem drop_eq (st : State) (n g : Nat) :
+    (drop st n g).2.evs = (if (st.names n).notDropped then [.realDrop n g] else []) ∧ (drop st n g).2.err = false ∧
+    ((drop st n g).1.names n).notDropped = false ∧ ((drop st n g).1.names n).opened = (st.names n).opened ∧
+    ((drop st n g).1.names n).ref = (st.names n).ref ∧ (drop st n g).1.nextGen = st.nextGen := by
+  unfold drop Gen.Cachedproducer.doRealDrop
+  refine ⟨rfl, rfl, ?_, ?_, ?_, rfl⟩
+  · show ((setName st n _).names n).notDropped = _; rw [setName_same]
+  · show ((setName st n _).names n).opened = _; rw [setName_same]
+  · show ((setName st n _).names n).ref = _; rw [setName_same]
+
+theorem drop_other (st : State) (n g m : Nat) (hm : m ≠ n) : (drop st n g).1.names m = st.names m :=
+  setName_other _ _ _ _ hm
+
+/-! ## counting over traces -/
+
+def opName : Op → Nat
+  | .open n _ => n
+  | .close n _ => n
+  | .drop n _ => n
+
+def evName : Ev → Nat
+  | .realOpen n _ => n
+  | .realOpenFail n => n
+  | .realClose n _ => n
+  | .realDrop n _ => n
+
+theorem events_snoc (tr : Trace) (x : Op × Out) : events (tr ++ [x]) = events tr ++ x.2.evs := by
+  unfold events; rw [List.flatMap_append]; simp
+
+/-- every underlying call made by an operation concerns the operation's own name -/
+theorem step_evs_name (st : State) (op : Op) : ∀ e ∈ (step st op).2.evs, evName e = opName op := by
+  cases op with
+  | «open» n f =>
+    intro e he
+    change e ∈ (openDB st n f).2.evs at he
+    unfold openDB at he
+    by_cases hc : Gen.Cachedproducer.reuseOpened ({ st.names n with notDropped := true } : NameSt).opened.isSome = true
+    · rw [if_pos hc] at he; cases he
+    · rw [if_neg hc] at he
+      cases f
+      · rw [if_neg (by simp)] at he; simp at he; subst he; rfl
+      · rw [if_pos rfl] at he; simp at he; subst he; rfl
+  | close n g =>
+    intro e he
+    change e ∈ (close st n g).2.evs at he
+    unfold close Gen.Cachedproducer.doRealClose at he
+    by_cases h1 : Gen.Cachedproducer.closeTooOften (st.names n).ref = true
+    · rw [if_pos h1] at he; cases he
+    · rw [if_neg h1] at he
+      by_cases h2 : Gen.Cachedproducer.closeLast (st.names n).ref = true
+      · rw [if_pos h2] at he; simp at he; subst he; rfl
+      · rw [if_neg h2] at he; simp at he
+  | drop n g =>
+    intro e he
+    have := (drop_eq st n g).1
+    change e ∈ (drop st n g).2.evs at he
+    rw [this] at he
+    split at he
+    · simp at he; subst he; rfl
+    · cases he
+
+theorem step_other (st : State) (op : Op) (m : Nat) (hm : m ≠ opName op) : (step st op).1.names m = st.names m := by
+  cases op with
+  | «open» n f => exact open_other st n m f hm
+  | close n g => exact close_other st n g m hm
+  | drop n g => exact drop_other st n g m hm
+
+theorem counts_other (tr : Trace) (op : Op) (o : Out) (n : Nat) (hn : n ≠ opName op) :
+    opens n (tr ++ [(op, o)]) = opens n tr ∧ opensOk n (tr ++ [(op, o)]) = opensOk n tr ∧
+    closesOk n (tr ++ [(op, o)]) = closesOk n tr := by
+  have hne : (opName op == n) = false := by simpa using fun h => hn h.symm
+  unfold opens opensOk closesOk
+  simp only [List.countP_append, List.countP_cons, List.countP_nil]
+  cases op <;> simp_all [opName]
+
+theorem realDrops_other (st : State) (tr : Trace) (op : Op) (n : Nat) (hn : n ≠ opName op) :
+    realDrops n (tr ++ [(op, (step st op).2)]) = realDrops n tr := by
+  unfold realDrops
+  rw [events_snoc, List.countP_append]
+  have : List.countP (fun e => match e with | .realDrop m _ => m == n | _ => false) (step st op).2.evs = 0 := by
+    apply List.countP_eq_zero.mpr
+    intro e he
+    have := step_evs_name st op e he
+    cases e <;> simp_all [evName]
+    exact fun h => hn h.symm
+  simp only at this ⊢
+  omega
+
+theorem open_notDropped (st : State) (n : Nat) (fail : Bool) : ((openDB st n fail).1.names n).notDropped = true := by
+  unfold openDB
+  by_cases hc : Gen.Cachedproducer.reuseOpened ({ st.names n with notDropped := true } : NameSt).opened.isSome = true
+  · rw [if_pos hc]; show ((setName st n _).names n).notDropped = _; rw [setName_same]
+  · rw [if_neg hc]
+    cases fail
+    · rw [if_neg (by simp)]; show ((setName st n _).names n).notDropped = _; rw [setName_same]
+    · rw [if_pos rfl]; show ((setName st n _).names n).notDropped = _; rw [setName_same]
+
+def dropPred (n : Nat) : Ev → Bool := fun e => match e with | .realDrop m _ => m == n | _ => false
+
+theorem realDrops_snoc (tr : Trace) (x : Op × Out) (n : Nat) :
+    realDrops n (tr ++ [x]) = realDrops n tr + x.2.evs.countP (dropPred n) := by
+  unfold realDrops; rw [events_snoc, List.countP_append]; rfl
+
+theorem counts_open (tr : Trace) (n : Nat) (f : Bool) (o : Out) :
+    opens n (tr ++ [(.open n f, o)]) = opens n tr + 1 ∧
+    opensOk n (tr ++ [(.open n f, o)]) = opensOk n tr + (if o.err then 0 else 1) ∧
+    closesOk n (tr ++ [(.open n f, o)]) = closesOk n tr := by
+  unfold opens opensOk closesOk
+  simp only [List.countP_append, List.countP_cons, List.countP_nil]
+  cases o.err <;> simp
+
+theorem counts_close (tr : Trace) (n g : Nat) (o : Out) :
+    opens n (tr ++ [(.close n g, o)]) = opens n tr ∧ opensOk n (tr ++ [(.close n g, o)]) = opensOk n tr ∧
+    closesOk n (tr ++ [(.close n g, o)]) = closesOk n tr + (if o.err then 0 else 1) := by
+  unfold opens opensOk closesOk
+  simp only [List.countP_append, List.countP_cons, List.countP_nil]
+  cases o.err <;> simp
+
+theorem counts_drop (tr : Trace) (n g : Nat) (o : Out) :
+    opens n (tr ++ [(.drop n g, o)]) = opens n tr ∧ opensOk n (tr ++ [(.drop n g, o)]) = opensOk n tr ∧
+    closesOk n (tr ++ [(.drop n g, o)]) = closesOk n tr := by
+  unfold opens opensOk closesOk
+  simp [List.countP_append]
+
+/-! ## invariant of all operation sequences (no well-formedness needed) -/
+
+structure Inv (st : State) (tr : Trace) : Prop where
+  /-- a store is cached exactly while references are counted -/
+  openIff : ∀ n, (st.names n).opened = none ↔ (st.names n).ref = 0
+  /-- the counter is the number of successful opens minus the number of successful closes -/
+  balance : ∀ n, (st.names n).ref + closesOk n tr = opensOk n tr
+  /-- underlying drops, plus the one still allowed, never exceed the OpenDB calls -/
+  drops : ∀ n, realDrops n tr + (if (st.names n).notDropped then 1 else 0) ≤ opens n tr
+
+theorem inv_new (k : Kind) : Inv (new k) [] :=
+  ⟨fun _ => ⟨fun _ => rfl, fun _ => rfl⟩, fun _ => rfl, fun _ => Nat.le_refl _⟩
+
+theorem inv_step (st : State) (tr : Trace) (op : Op) (h : Inv st tr) :
+    Inv (step st op).1 (tr ++ [(op, (step st op).2)]) := by
+  -- names the operation does not concern
+  have other : ∀ n, n ≠ opName op →
+      ((step st op).1.names n = st.names n) ∧ opens n (tr ++ [(op, (step st op).2)]) = opens n tr ∧
+      opensOk n (tr ++ [(op, (step st op).2)]) = opensOk n tr ∧ closesOk n (tr ++ [(op, (step st op).2)]) = closesOk n tr ∧
+      realDrops n (tr ++ [(op, (step st op).2)]) = realDrops n tr := by
+    intro n hn
+    have c := counts_other tr op (step st op).2 n hn
+    exact ⟨step_other st op n hn, c.1, c.2.1, c.2.2, realDrops_other st tr op n hn⟩
+  -- the operation's own name
+  have own : (((step st op).1.names (opName op)).opened = none ↔ ((step st op).1.names (opName op)).ref = 0) ∧
+      (((step st op).1.names (opName op)).ref + closesOk (opName op) (tr ++ [(op, (step st op).2)]) =
+        opensOk (opName op) (tr ++ [(op, (step st op).2)])) ∧
+      (realDrops (opName op) (tr ++ [(op, (step st op).2)]) +
+        (if ((step st op).1.names (opName op)).notDropped then 1 else 0) ≤ opens (opName op) (tr ++ [(op, (step st op).2)])) := by
+    cases op with
+    | «open» n f =>
+      have hi := h.openIff n; have hb := h.balance n; have hd := h.drops n
+      have c := counts_open tr n f (openDB st n f).2
+      have hnd := open_notDropped st n f
+      have hdr : realDrops n (tr ++ [(Op.open n f, (openDB st n f).2)]) = realDrops n tr := by
+        rw [realDrops_snoc]
+        have : List.countP (dropPred n) (openDB st n f).2.evs = 0 := by
+          apply List.countP_eq_zero.mpr
+          intro e he
+          cases ho : (st.names n).opened with
+          | some g => rw [(open_same_store st n g f ho).2.1] at he; cases he
+          | none =>
+            cases f
+            · rw [(open_fresh st n ho).2.1] at he; simp at he; subst he; simp [dropPred]
+            · rw [(open_fail st n ho).2.2.1] at he; simp at he; subst he; simp [dropPred]
+        simp only at this ⊢; omega
+      show (((openDB st n f).1.names n).opened = none ↔ ((openDB st n f).1.names n).ref = 0) ∧
+        (((openDB st n f).1.names n).ref + closesOk n (tr ++ [(Op.open n f, (openDB st n f).2)]) =
+          opensOk n (tr ++ [(Op.open n f, (openDB st n f).2)])) ∧
+        (realDrops n (tr ++ [(Op.open n f, (openDB st n f).2)]) + (if ((openDB st n f).1.names n).notDropped then 1 else 0) ≤
+          opens n (tr ++ [(Op.open n f, (openDB st n f).2)]))
+      rw [c.1, c.2.1, c.2.2, hdr, hnd]
+      have hd' : realDrops n tr ≤ opens n tr := by split at hd <;> omega
+      cases ho : (st.names n).opened with
+      | some g =>
+        have o := open_same_store st n g f ho
+        rw [o.2.2.2.1, o.2.2.2.2.1, o.2.2.1]
+        refine ⟨⟨fun h' => (by cases h'), fun h' => (by omega)⟩, by simp; omega, by simp; omega⟩
+      | none =>
+        cases f
+        · have o := open_fresh st n ho
+          rw [o.2.2.2.1, o.2.2.2.2.1, o.2.2.1]
+          refine ⟨⟨fun h' => (by cases h'), fun h' => (by omega)⟩, by simp; omega, by simp; omega⟩
+        · have o := open_fail st n ho
+          rw [o.2.2.2.1, o.2.2.2.2.1, o.1]
+          refine ⟨⟨fun _ => hi.mp ho, fun _ => rfl⟩, by simp; omega, by simp; omega⟩
+    | close n g =>
+      have hi := h.openIff n; have hb := h.balance n; have hd := h.drops n
+      have c := counts_close tr n g (close st n g).2
+      show (((close st n g).1.names n).opened = none ↔ ((close st n g).1.names n).ref = 0) ∧
+        (((close st n g).1.names n).ref + closesOk n (tr ++ [(Op.close n g, (close st n g).2)]) =
+          opensOk n (tr ++ [(Op.close n g, (close st n g).2)])) ∧
+        (realDrops n (tr ++ [(Op.close n g, (close st n g).2)]) + (if ((close st n g).1.names n).notDropped then 1 else 0) ≤
+          opens n (tr ++ [(Op.close n g, (close st n g).2)]))
+      rw [c.1, c.2.1, c.2.2, realDrops_snoc]
+      by_cases h0 : (st.names n).ref = 0
+      · rw [close_too_often st n g h0]
+        refine ⟨hi, by simp; omega, by simpa using hd⟩
+      · by_cases h1 : (st.names n).ref = 1
+        · have o := close_last st n g h1
+          rw [o.1, o.2.1, o.2.2.1, o.2.2.2.1, o.2.2.2.2.1]
+          refine ⟨⟨fun _ => rfl, fun _ => rfl⟩, by simp; omega, by simpa [dropPred] using hd⟩
+        · have o := close_not_last st n g (by omega)
+          rw [o.1, o.2.1, o.2.2.1, o.2.2.2.1, o.2.2.2.2.1]
+          refine ⟨⟨fun h' => by have := hi.mp h'; omega, fun h' => by omega⟩, by simp; omega, by simpa using hd⟩
+    | drop n g =>
+      have hi := h.openIff n; have hb := h.balance n; have hd := h.drops n
+      have c := counts_drop tr n g (drop st n g).2
+      have o := drop_eq st n g
+      show (((drop st n g).1.names n).opened = none ↔ ((drop st n g).1.names n).ref = 0) ∧
+        (((drop st n g).1.names n).ref + closesOk n (tr ++ [(Op.drop n g, (drop st n g).2)]) =
+          opensOk n (tr ++ [(Op.drop n g, (drop st n g).2)])) ∧
+        (realDrops n (tr ++ [(Op.drop n g, (drop st n g).2)]) + (if ((drop st n g).1.names n).notDropped then 1 else 0) ≤
+          opens n (tr ++ [(Op.drop n g, (drop st n g).2)]))
+      rw [c.1, c.2.1, c.2.2, realDrops_snoc, o.1, o.2.2.1, o.2.2.2.1, o.2.2.2.2.1]
+      refine ⟨hi, hb, ?_⟩
+      cases hnd : (st.names n).notDropped
+      · rw [hnd] at hd; simpa using hd
+      · rw [hnd] at hd; simpa [dropPred] using hd
+  refine ⟨?_, ?_, ?_⟩
+  · intro n
+    by_cases hn : n = opName op
+    · subst hn; exact own.1
+    · rw [(other n hn).1]; exact h.openIff n
+  · intro n
+    by_cases hn : n = opName op
+    · subst hn; exact own.2.1
+    · rw [(other n hn).1, (other n hn).2.2.1, (other n hn).2.2.2.1]; exact h.balance n
+  · intro n
+    by_cases hn : n = opName op
+    · subst hn; exact own.2.2
+    · rw [(other n hn).1, (other n hn).2.1, (other n hn).2.2.2.2]; exact h.drops n
+
+theorem inv_run (st : State) (tr : Trace) (ops : List Op) (h : Inv st tr) :
+    Inv (run st ops).1 (tr ++ (run st ops).2) := by
+  induction ops generalizing st tr with
+  | nil => simpa [run] using h
+  | cons op ops ih =>
+    have := ih (step st op).1 (tr ++ [(op, (step st op).2)]) (inv_step st tr op h)
+    simpa [run, List.append_assoc] using this
+
+/-! ## the clauses of the property over all operation sequences -/
+
+theorem inv_reach (k : Kind) (ops : List Op) (st : State) (tr : Trace) (hr : run (new k) ops = (st, tr)) : Inv st tr := by
+  have h := inv_run (new k) [] ops (inv_new k)
+  rw [List.nil_append, hr] at h
+  exact h
+
+/-- **Reference counting** (either constructor, any sequence, any interleaving of names): the
+counter of a name is the number of successful `OpenDB`s minus the number of successful `Close`s,
+and a store is cached exactly while that difference is positive. (`st`, `tr`: final state and
+trace of the run.) -/
+theorem refcount_balance (k : Kind) (ops : List Op) (st : State) (tr : Trace) (hr : run (new k) ops = (st, tr)) (n : Nat) :
+    (st.names n).ref + closesOk n tr = opensOk n tr ∧ ((st.names n).opened = none ↔ opensOk n tr = closesOk n tr) := by
+  have h := inv_reach k ops st tr hr
+  have hb := h.balance n
+  refine ⟨hb, ?_⟩
+  rw [h.openIff n]
+  constructor <;> (intro h'; omega)
+
+/-- **Same store**: after any sequence, as long as some successful open of `n` is not yet closed,
+there is a cached store `g` and the next `OpenDB(n)` returns it without an underlying call. -/
+theorem open_returns_same_store (k : Kind) (ops : List Op) (st : State) (tr : Trace) (hr : run (new k) ops = (st, tr))
+    (n : Nat) (fail : Bool) (hgt : opensOk n tr > closesOk n tr) :
+    ∃ g, (st.names n).opened = some g ∧ (openDB st n fail).2.gen = some g ∧ (openDB st n fail).2.evs = [] ∧
+      ((openDB st n fail).1.names n).opened = some g := by
+  have hb := refcount_balance k ops st tr hr n
+  cases ho : (st.names n).opened with
+  | none => have := hb.2.mp ho; omega
+  | some g =>
+    have o := open_same_store st n g fail ho
+    exact ⟨g, rfl, o.1, o.2.1, o.2.2.2.1⟩
+
+/-- **Closed exactly at the last close; closing more often is an error** — in terms of the
+observable history alone: after any sequence, `Close` on a handle of `n` calls the underlying
+`Close` iff exactly one successful open is outstanding, returns the error iff none is (and then
+changes nothing), and otherwise just counts down. -/
+theorem close_at_last_close (k : Kind) (ops : List Op) (st : State) (tr : Trace) (hr : run (new k) ops = (st, tr)) (n g : Nat) :
+    (close st n g).2.evs = (if opensOk n tr = closesOk n tr + 1 then [.realClose n g] else []) ∧
+    (close st n g).2.err = decide (opensOk n tr = closesOk n tr) ∧
+    (opensOk n tr = closesOk n tr → (close st n g).1 = st) := by
+  have hb := (refcount_balance k ops st tr hr n).1
+  by_cases h0 : (st.names n).ref = 0
+  · rw [close_too_often st n g h0]
+    refine ⟨by rw [if_neg (by omega)], by simp; omega, fun _ => rfl⟩
+  · by_cases h1 : (st.names n).ref = 1
+    · have o := close_last st n g h1
+      rw [o.1, o.2.1]
+      refine ⟨by rw [if_pos (by omega)], by simp; omega, fun h' => by omega⟩
+    · have o := close_not_last st n g (by omega)
+      rw [o.1, o.2.1]
+      refine ⟨by rw [if_neg (by omega)], by simp; omega, fun h' => by omega⟩
+
+/-- **The underlying drop runs at most once per open**: after any sequence, the number of
+underlying `Drop` calls on stores of `n` is at most the number of `OpenDB(n)` calls. -/
+theorem drop_at_most_once_per_open (k : Kind) (ops : List Op) (n : Nat) :
+    realDrops n (run (new k) ops).2 ≤ opens n (run (new k) ops).2 := by
+  have h := inv_reach k ops _ _ rfl
+  have := h.drops n
+  split at this <;> omega
+
+/-- … and between two `OpenDB(n)` calls at most one: a `Drop` right after a `Drop` calls nothing -/
+theorem second_drop_is_noop (st : State) (n g g' : Nat) : (drop (drop st n g).1 n g').2.evs = [] := by
+  rw [(drop_eq _ n g').1, (drop_eq st n g).2.2.1]
+  rfl
+
+/-! ## the underlying store is closed exactly once (per generation) -/
+
+/-- handles of an earlier generation are not closed while a newer generation of the name is open -/
+def okOp (st : State) : Op → Prop
+  | .close n g => (st.names n).opened = some g ∨ (st.names n).opened = none
+  | _ => True
+
+def WF (st : State) : List Op → Prop
+  | [] => True
+  | op :: ops => okOp st op ∧ WF (step st op).1 ops
+
+/-- what one operation on name `n = opName op` does to the events, the cached store and the
+generation counter: (A) nothing of interest, (B) a new generation is opened, (C) the last close -/
+theorem step_shape (st : State) (op : Op) (hi : (st.names (opName op)).opened = none ↔ (st.names (opName op)).ref = 0) :
+    ((∀ n g, Ev.realOpen n g ∉ (step st op).2.evs ∧ Ev.realClose n g ∉ (step st op).2.evs) ∧
+      ((step st op).1.names (opName op)).opened = (st.names (opName op)).opened ∧ (step st op).1.nextGen = st.nextGen) ∨
+    ((st.names (opName op)).opened = none ∧ (step st op).2.evs = [.realOpen (opName op) st.nextGen] ∧
+      ((step st op).1.names (opName op)).opened = some st.nextGen ∧ (step st op).1.nextGen = st.nextGen + 1) ∨
+    (∃ g, op = .close (opName op) g ∧ (st.names (opName op)).opened ≠ none ∧ (step st op).2.evs = [.realClose (opName op) g] ∧
+      ((step st op).1.names (opName op)).opened = none ∧ (step st op).1.nextGen = st.nextGen) := by
+  cases op with
+  | «open» n f =>
+    cases ho : (st.names n).opened with
+    | some g =>
+      have o := open_same_store st n g f ho
+      left
+      refine ⟨fun n' g' => ?_, by show ((openDB st n f).1.names n).opened = (st.names n).opened; rw [o.2.2.2.1, ho], o.2.2.2.2.2⟩
+      show _ ∉ (openDB st n f).2.evs ∧ _ ∉ (openDB st n f).2.evs
+      rw [o.2.1]; simp
+    | none =>
+      cases f
+      · have o := open_fresh st n ho
+        right; left
+        exact ⟨ho, o.2.1, o.2.2.2.1, o.2.2.2.2.2⟩
+      · have o := open_fail st n ho
+        left
+        refine ⟨fun n' g' => ?_, by show ((openDB st n true).1.names n).opened = (st.names n).opened; rw [o.2.2.2.1, ho], o.2.2.2.2.2⟩
+        show _ ∉ (openDB st n true).2.evs ∧ _ ∉ (openDB st n true).2.evs
+        rw [o.2.2.1]; simp
+  | close n g =>
+    by_cases h0 : (st.names n).ref = 0
+    · left
+      show (∀ n' g', _ ∉ (close st n g).2.evs ∧ _ ∉ (close st n g).2.evs) ∧ ((close st n g).1.names n).opened = _ ∧
+        (close st n g).1.nextGen = _
+      rw [close_too_often st n g h0]
+      exact ⟨fun _ _ => ⟨by simp, by simp⟩, rfl, rfl⟩
+    · by_cases h1 : (st.names n).ref = 1
+      · have o := close_last st n g h1
+        right; right
+        exact ⟨g, rfl, fun h' => h0 (hi.mp h'), o.2.1, o.2.2.1, o.2.2.2.2.2⟩
+      · have o := close_not_last st n g (by omega)
+        left
+        refine ⟨fun n' g' => ?_, o.2.2.1, o.2.2.2.2.2⟩
+        show _ ∉ (close st n g).2.evs ∧ _ ∉ (close st n g).2.evs
+        rw [o.2.1]; simp
+  | drop n g =>
+    have o := drop_eq st n g
+    left
+    refine ⟨fun n' g' => ?_, o.2.2.2.1, o.2.2.2.2.2⟩
+    show _ ∉ (drop st n g).2.evs ∧ _ ∉ (drop st n g).2.evs
+    rw [o.1]; split <;> simp
+
+theorem count_snoc_ne (E : List Ev) (e x : Ev) (h : x ≠ e) : (E ++ [x]).count e = E.count e := by
+  rw [List.count_append]
+  have : List.count e [x] = 0 := List.count_eq_zero.mpr (by simp; exact fun h' => h h'.symm)
+  omega
+
+theorem count_snoc_self (E : List Ev) (e : Ev) : (E ++ [e]).count e = E.count e + 1 := by
+  rw [List.count_append]; simp
+
+theorem count_append_none (E ev : List Ev) (e : Ev) (h : e ∉ ev) : (E ++ ev).count e = E.count e := by
+  rw [List.count_append, List.count_eq_zero.mpr h]; rfl
+
+structure Inv2 (st : State) (tr : Trace) : Prop where
+  lt : ∀ n g, (Ev.realOpen n g ∈ events tr ∨ (st.names n).opened = some g) → g < st.nextGen
+  clt : ∀ n g, Ev.realClose n g ∈ events tr → g < st.nextGen
+  /-- the cached generation has been opened underneath and not closed yet -/
+  cur : ∀ n g, (st.names n).opened = some g → Ev.realOpen n g ∈ events tr ∧ (events tr).count (.realClose n g) = 0
+  /-- every earlier generation has been closed underneath exactly once -/
+  past : ∀ n g, Ev.realOpen n g ∈ events tr → (st.names n).opened ≠ some g → (events tr).count (.realClose n g) = 1
+
+theorem inv2_new (k : Kind) : Inv2 (new k) [] := by
+  refine ⟨?_, ?_, ?_, ?_⟩
+  · intro n g h; rcases h with h | h <;> cases h
+  · intro n g h; cases h
+  · intro n g h; cases h
+  · intro n g h; cases h
+
+theorem inv2_step (st : State) (tr : Trace) (op : Op) (hi : Inv st tr) (h : Inv2 st tr) (hok : okOp st op) :
+    Inv2 (step st op).1 (tr ++ [(op, (step st op).2)]) := by
+  have hev := events_snoc tr (op, (step st op).2)
+  simp only at hev
+  have oth : ∀ n, n ≠ opName op → ((step st op).1.names n).opened = (st.names n).opened :=
+    fun n hn => by rw [step_other st op n hn]
+  have nm := step_evs_name st op
+  rcases step_shape st op (hi.openIff _) with ⟨hno, hop, hng⟩ | ⟨hnone, hevs, hop, hng⟩ | ⟨g0, hopq, hne, hevs, hop, hng⟩
+  · -- (A) nothing of interest happens
+    have opened_eq : ∀ n, ((step st op).1.names n).opened = (st.names n).opened := by
+      intro n; by_cases hn : n = opName op
+      · subst hn; exact hop
+      · exact oth n hn
+    have mem_iff : ∀ n g, Ev.realOpen n g ∈ events tr ++ (step st op).2.evs ↔ Ev.realOpen n g ∈ events tr := by
+      intro n g; rw [List.mem_append]; exact ⟨fun h' => h'.resolve_right (hno n g).1, Or.inl⟩
+    have cnt : ∀ n g, (events tr ++ (step st op).2.evs).count (.realClose n g) = (events tr).count (.realClose n g) :=
+      fun n g => count_append_none _ _ _ (hno n g).2
+    refine ⟨?_, ?_, ?_, ?_⟩
+    · intro n g hh; rw [hev, mem_iff, opened_eq, hng] at *; exact h.lt n g hh
+    · intro n g hh; rw [hev, List.mem_append] at hh; rw [hng]
+      exact h.clt n g (hh.resolve_right (hno n g).2)
+    · intro n g hh; rw [opened_eq] at hh; rw [hev, mem_iff, cnt]; exact h.cur n g hh
+    · intro n g h1 h2; rw [hev, mem_iff] at h1; rw [opened_eq] at h2; rw [hev, cnt]; exact h.past n g h1 h2
+  · -- (B) a new generation of the op's name is opened underneath
+    rw [hevs] at hev
+    have fresh : (events tr).count (.realClose (opName op) st.nextGen) = 0 := by
+      apply List.count_eq_zero.mpr
+      intro hm; have := h.clt _ _ hm; omega
+    refine ⟨?_, ?_, ?_, ?_⟩
+    · intro n g hh
+      rw [hev, hng] at *
+      rcases hh with hh | hh
+      · rcases List.mem_append.mp hh with h1 | h1
+        · have := h.lt n g (Or.inl h1); omega
+        · simp at h1; omega
+      · by_cases hn : n = opName op
+        · subst hn; rw [hop] at hh; cases hh; omega
+        · rw [oth n hn] at hh; have := h.lt n g (Or.inr hh); omega
+    · intro n g hh
+      rw [hev] at hh; rw [hng]
+      rcases List.mem_append.mp hh with h1 | h1
+      · have := h.clt n g h1; omega
+      · simp at h1
+    · intro n g hh
+      rw [hev]
+      by_cases hn : n = opName op
+      · subst hn; rw [hop] at hh; cases hh
+        exact ⟨List.mem_append_right _ (by simp), by rw [count_snoc_ne _ _ _ (by simp)]; exact fresh⟩
+      · rw [oth n hn] at hh
+        have := h.cur n g hh
+        exact ⟨List.mem_append_left _ this.1, by rw [count_snoc_ne _ _ _ (by simp)]; exact this.2⟩
+    · intro n g h1 h2
+      rw [hev] at h1 ⊢
+      rw [count_snoc_ne _ _ _ (by simp)]
+      rcases List.mem_append.mp h1 with h1 | h1
+      · by_cases hn : n = opName op
+        · subst hn; exact h.past _ g h1 (by rw [hnone]; simp)
+        · rw [oth n hn] at h2; exact h.past n g h1 h2
+      · simp at h1; obtain ⟨rfl, rfl⟩ := h1; exact absurd hop h2
+  · -- (C) the last close of the current generation
+    rw [hevs] at hev
+    have hcur : (st.names (opName op)).opened = some g0 := by
+      rw [hopq] at hok
+      rcases hok with h' | h'
+      · exact h'
+      · exact absurd h' hne
+    have mem_iff : ∀ n g, Ev.realOpen n g ∈ events tr ++ [Ev.realClose (opName op) g0] ↔ Ev.realOpen n g ∈ events tr := by
+      intro n g; rw [List.mem_append]; exact ⟨fun h' => h'.resolve_right (by simp), Or.inl⟩
+    refine ⟨?_, ?_, ?_, ?_⟩
+    · intro n g hh
+      rw [hev, mem_iff, hng] at *
+      rcases hh with hh | hh
+      · exact h.lt n g (Or.inl hh)
+      · by_cases hn : n = opName op
+        · subst hn; rw [hop] at hh; cases hh
+        · rw [oth n hn] at hh; exact h.lt n g (Or.inr hh)
+    · intro n g hh
+      rw [hev] at hh; rw [hng]
+      rcases List.mem_append.mp hh with h1 | h1
+      · exact h.clt n g h1
+      · simp at h1; obtain ⟨rfl, rfl⟩ := h1; exact h.lt _ _ (Or.inr hcur)
+    · intro n g hh
+      rw [hev, mem_iff]
+      by_cases hn : n = opName op
+      · subst hn; rw [hop] at hh; cases hh
+      · rw [oth n hn] at hh
+        have := h.cur n g hh
+        exact ⟨this.1, by rw [count_snoc_ne _ _ _ (by simp; exact fun h' => absurd h'.symm hn)]; exact this.2⟩
+    · intro n g h1 h2
+      rw [hev, mem_iff] at h1; rw [hev]
+      by_cases hn : n = opName op
+      · subst hn
+        by_cases hg : g = g0
+        · subst hg; rw [count_snoc_self, (h.cur _ _ hcur).2]
+        · rw [count_snoc_ne _ _ _ (by simp; exact fun h' => hg h'.symm)]
+          exact h.past _ g h1 (by rw [hcur]; simp; exact fun h' => hg h'.symm)
+      · rw [oth n hn] at h2
+        rw [count_snoc_ne _ _ _ (by simp; exact fun h' => absurd h'.symm hn)]
+        exact h.past n g h1 h2
+
+theorem inv2_run (st : State) (tr : Trace) (ops : List Op) (hi : Inv st tr) (h : Inv2 st tr) (hw : WF st ops) :
+    Inv2 (run st ops).1 (tr ++ (run st ops).2) := by
+  induction ops generalizing st tr with
+  | nil => simpa [run] using h
+  | cons op ops ih =>
+    have := ih (step st op).1 (tr ++ [(op, (step st op).2)]) (inv_step st tr op hi) (inv2_step st tr op hi h hw.1) hw.2
+    simpa [run, List.append_assoc] using this
+
+/-- **The underlying database is closed exactly once, when the last of the opens is closed**
+(per generation, DESIGN §2.6): for either constructor and every operation sequence in which no
+stale handle is closed while a newer generation of its name is open, every store ever opened
+underneath (`realOpen n g`) has been closed underneath exactly once if it is no longer the cached
+store of `n`, and not at all while it is — and by `close_at_last_close` the cached store is given
+up exactly by the close that brings the outstanding opens to zero. -/
+theorem closed_exactly_once (k : Kind) (ops : List Op) (hw : WF (new k) ops) (n g : Nat) :
+    Ev.realOpen n g ∈ events (run (new k) ops).2 →
+    (events (run (new k) ops).2).count (.realClose n g) =
+      if ((run (new k) ops).1.names n).opened = some g then 0 else 1 := by
+  intro hm
+  have h := inv2_run (new k) [] ops (inv_new k) (inv2_new k) hw
+  rw [List.nil_append] at h
+  split
+  · next hc => exact (h.cur n g hc).2
+  · next hc => exact h.past n g hm hc
+
+/-- a cached store is always one that was really opened, and once all opens are closed (nothing
+cached) every store of the name has been closed exactly once -/
+theorem all_closed_when_balanced (k : Kind) (ops : List Op) (hw : WF (new k) ops) (n g : Nat)
+    (hb : opensOk n (run (new k) ops).2 = closesOk n (run (new k) ops).2)
+    (hm : Ev.realOpen n g ∈ events (run (new k) ops).2) :
+    (events (run (new k) ops).2).count (.realClose n g) = 1 := by
+  have hn := (refcount_balance k ops _ _ rfl n).2.mpr hb
+  rw [closed_exactly_once k ops hw n g hm, if_neg (by rw [hn]; simp)]
+
+/-! ## negative witness: `Wrap` before the `fix:` commit (DESIGN §7 D9) -/
+
+/-- `Wrap` built its cacheState without `refCounter`; Go panics on `c.refCounter[name]++` of a nil
+map ("assignment to entry in nil map"). The pre-fix producer: `refAllocated = false` for `wrap`. -/
+def refAllocatedPreFix : Kind → Bool
+  | .wrap => false
+  | .wrapAll => true
+
+/-- first `OpenDB` through the pre-fix producer: `none` = panic at the counter increment (reached on
+both paths of openDB, after a successful underlying open) -/
+def openPreFix (k : Kind) (st : State) (n : Nat) : Option (State × Out) :=
+  if refAllocatedPreFix k then some (openDB st n false) else none
+
+example : openPreFix .wrap (new .wrap) 7 = none := by decide
+example : (openPreFix .wrapAll (new .wrapAll) 7).isSome = true := by decide
+/-- the repaired `Wrap` behaves as `WrapAll` on its first open -/
+example : (openDB (new .wrap) 7 false).2.evs = [.realOpen 7 0] ∧ (openDB (new .wrap) 7 false).2.gen = some 0 := by decide
+
+/-! ## non-vacuity -/
+
+/-- two names interleaved, both constructors: the second open of 0 reuses generation 0; its store
+is closed underneath by the second close only; a third close is an error; reopening creates
+generation 2; one underlying drop per open -/
+example : ∀ k, ((run (new k) [.open 0 false, .open 1 false, .open 0 false, .close 0 0, .close 0 0, .close 0 0,
+      .open 0 false, .drop 0 2, .drop 0 2, .close 1 1]).2.map (fun x => (x.2.err, x.2.gen, x.2.evs))) =
+    [(false, some 0, [.realOpen 0 0]), (false, some 1, [.realOpen 1 1]), (false, some 0, []), (false, none, []),
+     (false, none, [.realClose 0 0]), (true, none, []), (false, some 2, [.realOpen 0 2]), (false, none, [.realDrop 0 2]),
+     (false, none, []), (false, none, [.realClose 1 1])] := by
+  intro k; cases k <;> decide
+
+example : WF (new .wrap) [.open 0 false, .open 0 false, .close 0 0, .close 0 0, .close 0 0, .open 0 false, .close 0 1] := by
+  simp [WF, okOp, step, openDB, close, new, setName, Gen.Cachedproducer.reuseOpened, Gen.Cachedproducer.closeTooOften,
+    Gen.Cachedproducer.closeLast]
+
+/-- why `WF` is needed (the model follows the code): closing the stale handle of generation 0 while
+generation 1 is open closes store 0 a second time and leaves store 1 open -/
+example : (events (run (new .wrap) [.open 0 false, .close 0 0, .open 0 false, .close 0 0]).2).count (.realClose 0 0) = 2 := by
+  decide
+
 end C27
